@@ -82,12 +82,14 @@ def comparable : Shape → Bool
 /-- model input: `cmp <shape> <ranks x> <ranks y> <leaf hashes x> <leaf hashes y>` -/
 def model (f : List String) : String :=
   match f with
-  | ["cmp", shape, rx, ry, _name, _vx, _vy, hx, hy] =>
+  | ["cmp", shape, rx, ry, name, _vx, _vy, hx, hy] =>
     match mk shape rx hx, mk shape ry hy, parseShape shape.toList with
     | some x, some y, some (sh, _) =>
       "lh=" ++ hx ++ "/" ++ hy ++ " hx=" ++ hexOf (hashV x) ++ " hy=" ++ hexOf (hashV y) ++ " ops=" ++
         (if comparable sh then opsBits x y else "------") ++ " self=" ++
-        (if comparable sh then opsBits x x else "------")
+        (if comparable sh then opsBits x x else "------") ++
+        -- a mix-in object overwritten member by member is the value it was given (harness: `mut`)
+        (if ["A", "B", "C", "D", "E"].contains name then " mut=1" else " mut=-")
     | _, _, _ => "bad-op"
   | "cmp" :: _ => "no-leaf-hashes"
   | ["set", _name, members, probes, _mv, _pv] =>
@@ -135,6 +137,7 @@ def judge (f : List String) (ans : String) : String :=
                 bit (c != .gt) ++ bit (c != .lt)
               if ops != want then "bad:operators-disagree-with-lexicographic-order want " ++ want ++ feat
               else if field ans "self" != some "010011" then "bad:comparing-a-value-with-itself" ++ feat
+              else if field ans "mut" == some "0" then "bad:object-changed-in-place-is-not-the-value-it-holds" ++ feat
               else "ok" ++ feat
             else "ok" ++ feat
         | _, _, _, _, _ => "bad:unparsable" ++ "\tunparsable"
